@@ -1,0 +1,87 @@
+//! Thread life-cycle protocol points, only compiled with `--cfg tiny_std_verif` (never set
+//! by the repository's own build).
+//!
+//! `thread::spawn`, the thread epilogue, the panic handler, `JoinHandle::join` and
+//! `JoinHandle::drop` announce each step of the hand-shake over the shared join block by
+//! calling `point(id, arg)` immediately *before* performing it.  A test harness may install
+//! one process global callback, which can log the point, and may block the calling thread
+//! until a scheduler grants it the turn.  With no callback installed `point` does nothing.
+use core::sync::atomic::{AtomicUsize, Ordering};
+
+/// `spawn`: shared join block allocated and initialised, `arg` = its address
+pub const SPAWN_TSM: u32 = 1;
+/// `spawn`: closure boxed, `arg` = address of the box
+pub const SPAWN_CLOSURE: u32 = 2;
+/// `spawn`: stack mapped, `arg` = address of the mapping
+pub const SPAWN_STACK: u32 = 3;
+/// `spawn`: thread local block allocated, `arg` = its address
+pub const SPAWN_TLS: u32 = 4;
+/// `spawn`: about to call `clone`, `arg` = address of the exit futex
+pub const SPAWN_BEFORE_CLONE: u32 = 5;
+/// `spawn`: `clone` has returned in the caller, about to hand out the `JoinHandle`
+pub const SPAWN_AFTER_CLONE: u32 = 6;
+
+/// new thread: closure has returned, about to write the result slot, `arg` = join block
+pub const CHILD_BEFORE_WRITE: u32 = 10;
+/// new thread: about to compare-exchange the flag
+pub const CHILD_BEFORE_CAS: u32 = 11;
+/// new thread: lost the flag, about to reset the clear-tid address
+pub const CHILD_BEFORE_SET_TID: u32 = 13;
+/// new thread: about to free the join block
+pub const CHILD_BEFORE_TSM_DEALLOC: u32 = 14;
+/// new thread: about to free its thread local block, `arg` = its address
+pub const CHILD_BEFORE_TLS_DEALLOC: u32 = 15;
+/// new thread: everything done in Rust code, about to return to the asm epilogue
+/// (unmap own stack, exit)
+pub const CHILD_BEFORE_EPILOGUE: u32 = 16;
+
+/// panic handler on a spawned thread: about to free the thread local block
+pub const PANIC_BEFORE_TLS_DEALLOC: u32 = 20;
+/// panic handler: about to compare-exchange the flag, `arg` = join block
+pub const PANIC_BEFORE_CAS: u32 = 21;
+/// panic handler: lost the flag, about to reset the clear-tid address
+pub const PANIC_BEFORE_SET_TID: u32 = 23;
+/// panic handler: about to free the join block
+pub const PANIC_BEFORE_TSM_DEALLOC: u32 = 24;
+/// panic handler: about to unmap the own stack and exit, `arg` = address of the mapping
+pub const PANIC_BEFORE_EPILOGUE: u32 = 25;
+
+/// `join`: about to wait on the exit futex, `arg` = address of the futex word
+pub const JOIN_BEFORE_WAIT: u32 = 30;
+/// `join`: wait is over, about to read the result slot, `arg` = join block
+pub const JOIN_BEFORE_READ: u32 = 31;
+/// `join`: about to free the join block
+pub const JOIN_BEFORE_DEALLOC: u32 = 32;
+
+/// `drop`: about to compare-exchange the flag, `arg` = join block
+pub const DROP_BEFORE_CAS: u32 = 40;
+/// `drop`: lost the flag, about to wait on the exit futex, `arg` = address of the futex word
+pub const DROP_BEFORE_WAIT: u32 = 42;
+/// `drop`: wait is over, about to free the join block
+pub const DROP_BEFORE_DEALLOC: u32 = 43;
+
+/// Callback type: `(point id, argument)`.
+pub type PointFn = fn(u32, usize);
+
+static POINT_FN: AtomicUsize = AtomicUsize::new(0);
+
+/// Install the callback for the whole process.
+pub fn install(f: PointFn) {
+    POINT_FN.store(f as usize, Ordering::SeqCst);
+}
+
+/// Remove the callback again.
+pub fn uninstall() {
+    POINT_FN.store(0, Ordering::SeqCst);
+}
+
+/// Announce a protocol point. Pass-through when no callback is installed.
+#[inline]
+pub fn point(id: u32, arg: usize) {
+    let p = POINT_FN.load(Ordering::SeqCst);
+    if p != 0 {
+        // SAFETY: only `install` stores non-zero values, all of them valid `PointFn`s.
+        let f = unsafe { core::mem::transmute::<usize, PointFn>(p) };
+        f(id, arg);
+    }
+}
